@@ -25,8 +25,9 @@ Definition ostep (s : ostate) (o : obs) : ostate :=
   | OCopy _ => s
   end.
 
-(* the snapshot of C16: serialisation; uid, name, parent and owner of every element; the index *)
-Definition ident (t : tag) : nat * string * option nat * option nat := (tuid t, name (hd_ t), parent (hd_ t), owner (hd_ t)).
+(* the snapshot of C16: serialisation; uid, name, parent, owner, children list and text of every element; the index *)
+Definition ident (t : tag) : nat * string * option nat * option nat * list nat * string :=
+  (tuid t, name (hd_ t), parent (hd_ t), owner (hd_ t), children (hd_ t), text (hd_ t)).
 Definition snapshot (s : ostate) :=
   (get_html (Some (odoc s)) (odoctype s), map ident (all_nodes (odoc s)), oix s, ohas_reset s).
 
